@@ -145,7 +145,20 @@ func freeRunV2(t *testing.T, cfg Config, rnd *rand.Rand, calls map[string]contra
 	}
 	lg.add(obs{E: "EC"})
 	wg.Wait()
+	if n := waitNoModuleGoroutines(); n > 0 {
+		lg.add(obs{E: "Leak", K: n, Note: "goroutines of the library remain 2s after termination"})
+	}
 	return lg.evs
+}
+
+// waitNoModuleGoroutines: free-running mode has no quiescence oracle, so the dump is retried with back-off for up to 2 s.
+func waitNoModuleGoroutines() int {
+	n := moduleGoroutines()
+	for d := 50 * time.Microsecond; n > 0 && d < 2*time.Second; d *= 2 {
+		time.Sleep(d)
+		n = moduleGoroutines()
+	}
+	return n
 }
 
 // TestFreeV2 writes free_events.ndjson (for Mon_Prio) and contract_calls.ndjson (distinct divider calls, for PureContract).
